@@ -380,6 +380,23 @@ def c15(cfg):
             return items
 
         rel = Rel(kind, [base, p2], relation, scal)
+    elif kind == "shift_numeric":
+        # concrete shift (carrier A: the real diagonal solver); chosen such that a block becomes exactly zero
+        sh = SymC(symc._rv(bd.parse_number(cfg["shift"])[0]))
+        E2 = [e + sh for e in E]
+        p2 = dict(base, E=E2, classes=None)
+
+        def relation(outs, sc, N, shv=float(bd.parse_number(cfg["shift"])[0])):
+            items = []
+            for o in outs[0][0]:
+                for w in range(3):
+                    ref = outs[0][w][o]
+                    if w == 0 and sum(o) == 0:
+                        ref = ref + np.eye(N, dtype=int) * (sh if isinstance(ref[0, 0], SymC) else shv)
+                    items.append((f"{NAMES[w]} order={o}", outs[1][w][o], ref))
+            return items
+
+        rel = Rel(kind, [base, p2], relation)
     elif kind == "scale":
         s = SymC(symc.real("s"))
         symc.assume(s.re > 0)
@@ -681,6 +698,13 @@ def configs_c15(tier):
     add(carrier="A", hermitian=True, sizes=[3, 1], spectrum=["0", "2", "2", "4"], relation="relabel", block_perm=[1, 0], fd=mask)
     add(carrier="A", hermitian=True, sizes=[3, 1], spectrum=["0", "2", "2", "4"], relation="permute_basis", basis_perm=[1, 0, 2, 3], fd=mask)
     add(carrier="A", hermitian=True, sizes=[3], spectrum=["0", "1", "2"], relation="permute_basis", basis_perm=[2, 0, 1])
+    for herm in (True, False):
+        add(carrier="A", hermitian=herm, sizes=[2, 2], spectrum=["1", "3", "2", "2"], relation="shift_numeric", shift="-2")
+        add(carrier="A", hermitian=herm, sizes=[2, 2], spectrum=["2", "2", "1", "3"], relation="shift_numeric", shift="-2")
+        add(carrier="A", hermitian=herm, sizes=[2, 1], spectrum=["1", "1", "2"], relation="shift_numeric", shift="-1", fd=[1])
+        add(carrier="A", hermitian=herm, sizes=[3], spectrum=["0", "2", "2"], relation="permute_basis", basis_perm=[1, 0, 2])
+        add(carrier="A", hermitian=herm, sizes=[4], spectrum=["0", "0", "1", "2"], relation="permute_basis", basis_perm=[2, 0, 3, 1], max_order=2)
+        add(carrier="A", hermitian=herm, sizes=[2, 2], spectrum=["1", "2", "0", "0"], relation="relabel", block_perm=[1, 0])
     add(carrier="A", hermitian=True, sizes=[3], spectrum=["0", "1", "2"], relation="conjugate")
     add(carrier="A", hermitian=True, sizes=[3, 1], spectrum=["0", "2", "2", "4"], relation="conjugate", fd=mask)
     add(carrier="A", hermitian=True, sizes=[3, 1], spectrum=["0", "2", "2", "4"], relation="rotate", pair=[1, 2], fd=[0], max_order=2)
